@@ -171,7 +171,7 @@ class Ctx:
         if dfs:
             jopts.append("-Dtlc2.tool.queue.IStateQueue=StateDeque")
         cmd = ["java"] + jopts + ["-cp", TLA_CP, "tlc2.TLC", "-workers", str(w), "-metadir", meta,
-                                  "-noGenerateSpecTE", "-config", cfg]
+                                  "-noGenerateSpecTE", "-checkpoint", "0", "-config", cfg]
         if coverage:
             cmd += ["-coverage", "1"]
         if simulate is not None:
